@@ -26,10 +26,22 @@ CLAIMED = {
             "Runtime monitoring: all 64 predicates over (id, value) as truth tables x exhaustive short write histories x backpressure on/off are run on the real collection; after every write the drained events are judged against the four-row inclusion decision table and the fold of the stream against List with the same predicate; lossy merges are enumerated by parking the consumer at quiescent points. The booking server's ListBookings/PullBookings are checked the same way.",
             "An absent item is never a member of the filtered collection whatever the predicate answers for nil; change times and old values of merged lossy events are not asserted.",
             "DESIGN.md §4 C08"),
+    "C15": ("online oracle over page walks: concatenation of the pages followed by next_page_token vs the model's full listing, plus hostile inputs under recover / child-process isolation",
+            "Runtime monitoring: for each of the seven paged List RPCs, collections of sizes 0-60 and the boundary sizes with random ids (prefixes of each other included) are walked with every page size of the property's list (mixed sizes too), directly and through the wrapped stack; every walk must return each item exactly once in listing order, pages no longer than the effective size, total_size right and a finite chain. Negative sizes and corrupted tokens (truncated, bit-flipped, non-base64, foreign, out-of-range numeric) must be answered with an error status, never a panic or an endless chain.",
+            "Collection contents are held fixed while paging; a token that decodes may be honoured; read masks are an extra dimension (keys with suffix mask-without-key).",
+            "DESIGN.md §4 C15"),
+    "C16": ("reference-model monitor (independent equality / big-number tolerance oracle) over mutation pairs, exhaustive logic tables, and an online stream checker at quiescent points",
+            "Runtime monitoring: pairs derived from a common ancestor by 0-3 mutations (all field kinds, unknown fields, NaN, typed nil, Change look-alikes) are run through cmp.Equal and the tolerance comparers and compared with an independent reference equality and an exact-arithmetic tolerance oracle (reflexivity, symmetry, inside/outside the tolerance, other kinds untouched); And/Or/ValueAnd/ValueOr against truth tables; resources with an equivalence are written and each subscriber's stream is judged against the value it holds.",
+            "Presence-only differences of change_time and one-sided well-known values are counted, not judged; durations and times are kept in the exactly representable range.",
+            "DESIGN.md §4 C16"),
     "C18": ("reference-model monitor (dense-timeline / step-function brute-force oracle) over exhaustive small grids and random inputs",
             "Runtime monitoring: every period pair on a small exhaustive grid, random 64-bit-range timestamps and random segment/mode lists are run through the real functions and compared with brute-force mathematical oracles; arguments are shadow-copied to detect mutation. Held on the executions listed in the evidence, nothing more.",
             "Oracles are written from the property text; float32 magnitudes are small integers so arithmetic is exact; inputs outside the stated domain (inverted periods) are counted, not judged.",
             "DESIGN.md §4 C18"),
+    "C20": ("online reference-model monitors: per-model executable specifications (set algebra, exact rational arithmetic, lookup tables, counters, fake clocks, content hashes) stepped in lock-step with the real models and servers",
+            "Runtime monitoring: random operation sequences with random configurations on parent, vending (+unit conversion over every unit pair), fan speed, mode, enter/leave, meter and publication models and their servers; every getter and RPC response is compared with a small executable specification written from doc comments and sc-api comments; panics on well-formed requests are violations.",
+            "Requests the documentation leaves open are counted, not judged; aliasing is C07's subject.",
+            "DESIGN.md §4 C20"),
 }
 
 NOT_YET = "monitor under construction in this session (runtime-monitoring design in DESIGN.md §4); not claimed until its check is silent on the unchanged tree"
